@@ -70,4 +70,28 @@ var properties = map[string]propSpec{
 		Stub:        []string{"short-reading / failing io.Reader", "short-writing / failing io.Writer", "slice-backed reference queue"},
 		Probes:      []string{"probe.ring_full", "probe.ring_empty"},
 	},
+	"C30": {
+		Engine: "primsim", Level: "exploration", QuickSec: 20, ThoroughSec: 600,
+		Rule: "one run = real state.Tracker (+TrackingLock) in a synctest bubble driven by notifier, waiter (zero / last-seen / stale / future index), canceller and terminator actors; guarded yield sites before every lock acquisition let the seeded scheduler order critical sections; oracles: per-return bounds on indices from the completed/started notification counts, liveness at every quiescent point (a stale, cancelled or terminated waiter may not still be blocked), and a porcupine linearizability check of the invoke/return history (stamped with a global event sequence) against an (index, terminated) model; non-trivial = at least 4 completed operations including a notification; distinct = distinct canonical journal hashes",
+		Assumptions: append([]string{"the tracker's own goroutine runs to its next Cond.Wait between two scheduler steps (it cannot be delayed between wake-up and re-locking without modifying sync.Cond)"}, commonAssumptions...),
+		Real:        []string{"state.Tracker", "state.TrackingLock"},
+		Stub:        []string{"client actors", "seeded yields", "porcupine reference model"},
+		Probes:      []string{"probe.porcupine_checked", "probe.cancel_inflight", "probe.yield.tracker.notify", "probe.yield.tracker.wait"},
+	},
+	"C31": {
+		Engine: "primsim", Level: "exploration", QuickSec: 20, ThoroughSec: 600,
+		Rule: "one run = real state.Coalescer with window 0..50 ms on the fake clock; strobe bursts with gaps just below/above the window, a consumer that is absent, slow or waiting, termination at a seeded time; oracle: an event-level reference model (timer fires at last-strobe+window, one-slot buffer, drop when full) predicts the exact simulated instant at which each receive gets its signal and the number of signals buffered at rest; non-trivial = at least 2 strobes and 1 predicted signal; distinct = distinct journal hashes",
+		Assumptions: append([]string{"gaps carry odd microsecond offsets so that no two timers expire together (the runtime, not the seed, would order them)"}, commonAssumptions...),
+		Real:        []string{"state.Coalescer"},
+		Stub:        []string{"strobe / consume / terminate actors", "fake clock", "reference model"},
+		Probes:      []string{"probe.bursts", "probe.coalesced_strobes", "probe.signal_dropped_buffer_full"},
+	},
+	"C32": {
+		Engine: "primsim", Level: "exploration", QuickSec: 20, ThoroughSec: 600,
+		Rule: "one run = the real prompting registry with a simulator-owned prompter that parks inside Message/Prompt; concurrent callers and an unregistering actor are interleaved by the seeded scheduler at guarded yield sites; oracles: never two invocations in progress, none starts after UnregisterPrompter returned, UnregisterPrompter never returns during an invocation, callers after unregistration get an error (a panic kills the worker and is reported as a process-crash finding); every prompt string issued also checks the echo/secret response mode against the four documented suffixes; non-trivial = at least 2 prompter invocations; distinct = distinct journal hashes",
+		Assumptions: append([]string{"the response-mode clause is a pure function observed through the guarded export prompting.VerifDetermineResponseMode"}, commonAssumptions...),
+		Real:        []string{"prompting.RegisterPrompterWithIdentifier / UnregisterPrompter / Message / Prompt", "prompting.determineResponseMode"},
+		Stub:        []string{"blocking prompter", "caller actors"},
+		Probes:      []string{"probe.error_after_unregister", "probe.echo_prompt", "probe.secret_prompt", "probe.yield.prompting.unregister.acquire"},
+	},
 }
